@@ -9,6 +9,10 @@
 //     it (directly, out of nested locks, through ignore-errors / unwind-protect / let / progn, in last and in
 //     non-last position), by an error, and normally; afterwards ANOTHER routine takes the same mutexes.  A mutex
 //     that is not free again shows as routines blocked for good, with the program as the failing input.
+//   - let counters: the documented example of with-mutex-lock (a counter in a let variable shared by the routines
+//     started from that let); the sum must be exact, the process must survive (the variable map is shared).
+//   - cold code: routines parked inside a function nobody has called before (or inside one form started k times)
+//     are released together and compile its forms in place at the same time; every one must get the sequential value.
 package c17
 
 import (
@@ -105,7 +109,7 @@ func genForced(ctx *common.Ctx) []implJob {
 			pre = "(channel-push c1 3) "
 		}
 		if r.Chance(35) {
-			post = " (channel-push c1 4)" // the exit is not the last form: slip carries on with the body (C07); the mutex must be free all the same
+			post = " (channel-push c1 4)" // the exit is not the last form: it leaves all the same, the mutex must be free
 		}
 		lock := fmt.Sprintf("(with-mutex-lock m0 %s%s%s)", pre, fmt.Sprintf(in, ex.exit), post)
 		form := ex.open + " " + fmt.Sprintf(o, lock) + ex.close
@@ -177,6 +181,27 @@ func genForced(ctx *common.Ctx) []implJob {
 			Procs: common.Pick(r, procChoices)}, Shape: "forced-select-timeout", Counts: []int{0, n}})
 	}
 
+	// ---- select over a CLOSED channel: its clause runs with nil, whether select can use the Go select statement
+	//      (at most two timer clauses) or has to go through reflect.Select (three and more) ----
+	for _, nt := range []int{0, 2, 3, 4} {
+		var sel strings.Builder
+		sel.WriteString("(select")
+		pos := r.Intn(nt + 1)
+		for t := 0; t <= nt; t++ {
+			if t == pos {
+				sel.WriteString(" (c0 v (list 7 v))")
+			}
+			if t < nt {
+				sel.WriteString(" ((time-after 1000) tv (list 99 tv))")
+			}
+		}
+		sel.WriteString(")")
+		body := "(channel-push c0 5) (channel-close c0) " + okEntry(0, sel.String(), "'(7 5)") + " " + okEntry(1, sel.String(), "'(7 nil)") + " " +
+			okEntry(2, sel.String(), "'(7 nil)")
+		out = append(out, implJob{Job: job{Kind: "lisp", Caps: []int{1}, Runs: []string{implRoutine(body, 0)}, Procs: common.Pick(r, procChoices)},
+			Shape: fmt.Sprintf("forced-select-closed-%d-timers", nt), Counts: []int{3}})
+	}
+
 	// ---- synchronizedp / set-synchronized while another routine is inside a slot access (vhold holds the instance
 	//      lock the way a slot access does): the instance must still be reported synchronized, set-synchronized
 	//      must leave its mutex alone, a slot write must wait for the holder ----
@@ -207,6 +232,91 @@ func genForced(ctx *common.Ctx) []implJob {
 		counts[nw] = 1
 		out = append(out, implJob{Job: job{Kind: "lisp", Cells: []string{kind}, Runs: runs, Procs: common.Pick(r, []int{4, 8, 16})},
 			Shape: "forced-sync-load-" + kind, Counts: counts})
+	}
+	// ---- the documented way of guarding shared data: a counter in a LET variable, incremented inside with-mutex-lock
+	//      by routines started from that let (the scope's variable map is shared by all of them; run makes it
+	//      synchronized).  Two ways of starting the routines: one form each, and ONE form started k times by dotimes
+	//      (then the routines also compile that form in place at the same time).  The sum must be exact ----
+	for t, loop := range []bool{false, true, r.Bool()} {
+		k := 2 + r.Intn(5)
+		per := 40 + r.Intn(120)
+		worker := fmt.Sprintf("(run (progn (dotimes (i %d) (with-mutex-lock m (setq n (+ n 1)))) (with-mutex-lock m (setq total (+ total %d))) (channel-push d 1)))", per, per)
+		var b strings.Builder
+		fmt.Fprintf(&b, "(let ((n 0) (total 0) (m (make-mutex)) (d (make-channel %d)))", k)
+		if loop {
+			fmt.Fprintf(&b, " (dotimes (w %d) %s)", k, worker)
+		} else {
+			for i := 0; i < k; i++ {
+				b.WriteString(" " + worker)
+			}
+		}
+		fmt.Fprintf(&b, " (run (let ((log nil)) (dotimes (w %d) (channel-pop d)) %s %s (channel-push res (list 0 log)))))", k,
+			okEntry(0, "n", fmt.Sprint(k*per)), okEntry(1, "total", fmt.Sprint(k*per)))
+		shape := "forced-let-counter"
+		if loop {
+			shape = "forced-let-counter-loop"
+		}
+		_ = t
+		out = append(out, implJob{Job: job{Kind: "lisp", Runs: []string{b.String()}, Results: 1, Procs: common.Pick(r, []int{2, 4, 8, 16})},
+			Shape: shape, Counts: []int{2}})
+	}
+	// ---- k routines are parked INSIDE a function nobody has called before and released together: they compile its
+	//      forms in place at the same time; every routine must get the sequential value.  Second variant: the same
+	//      thing for one (run form) started k times ----
+	coldBody := func(x string) string {
+		return fmt.Sprintf("(let* ((y (* %[1]s %[1]s)) (acc (list y))) "+
+			"(cond ((< y 0) (setq acc (cons -1 acc))) (t (setq acc (cons (+ y 1) acc)))) "+
+			"(dotimes (i 3) (setq acc (cons (+ i %[1]s) acc))) "+
+			"(dolist (z (list 1 2)) (setq acc (cons (* z %[1]s) acc))) "+
+			"(when (> y -1) (setq acc (cons (if (evenp %[1]s) 0 1) acc))) "+
+			"(setq acc (cons (funcall (lambda (q) (+ q 1)) %[1]s) acc)) "+
+			"(case %[1]s (1 (setq acc (cons 100 acc))) (t (setq acc (cons 200 acc)))) "+
+			"(apply #'+ acc))", x)
+	}
+	coldValue := func(x int) int {
+		v := 2*x*x + 7*x + 5 + 200
+		if x%2 != 0 {
+			v++
+		}
+		if x == 1 {
+			v -= 100
+		}
+		return v
+	}
+	for t := 0; t < 2; t++ {
+		k := 2 + r.Intn(5)
+		name := fmt.Sprintf("c17cold-%d-%d", r.Intn(1000000), t)
+		setup := []string{fmt.Sprintf("(defun %s (g x) (channel-pop g) %s)", name, coldBody("x"))}
+		var runs []string
+		counts := make([]int, k+1)
+		for i := 0; i < k; i++ {
+			runs = append(runs, implRoutine(okEntry(0, fmt.Sprintf("(%s c0 %d)", name, i), fmt.Sprint(coldValue(i))), i))
+			counts[i] = 1
+		}
+		var d strings.Builder
+		d.WriteString("(vpause 20000)")
+		for i := 0; i < k; i++ {
+			d.WriteString(" (channel-push c0 1)")
+		}
+		runs = append(runs, implRoutine(d.String(), k))
+		out = append(out, implJob{Job: job{Kind: "lisp", Caps: []int{0}, Setup: setup, Runs: runs, Procs: common.Pick(r, []int{2, 4, 8, 16})},
+			Shape: "forced-cold-function", Counts: counts})
+	}
+	{
+		k := 2 + r.Intn(5)
+		x := 2 + r.Intn(5)
+		var b strings.Builder
+		fmt.Fprintf(&b, "(progn (dotimes (w %d) (run (progn (channel-pop c0) (channel-push c1 %s))))", k, coldBody(fmt.Sprint(x)))
+		b.WriteString(" (run (let ((log nil)) (vpause 20000)")
+		for i := 0; i < k; i++ {
+			b.WriteString(" (channel-push c0 1)")
+		}
+		for i := 0; i < k; i++ {
+			b.WriteString(" " + okEntry(i, "(channel-pop c1)", fmt.Sprint(coldValue(x))))
+		}
+		b.WriteString(" (channel-push res (list 0 log)))))")
+		out = append(out, implJob{Job: job{Kind: "lisp", Caps: []int{0, k}, Runs: []string{b.String()}, Results: 1, Procs: common.Pick(r, []int{2, 4, 8, 16})},
+			Shape: "forced-same-form", Counts: []int{k}})
 	}
 	return out
 }
